@@ -208,8 +208,39 @@ def product_case(ctx: Ctx, stream: str, i: int) -> None:
     ctx.case(sx(esx), True, sample={**cfg, 'result': type(red).__name__, 'expected_kind': want_cls.__name__})
 
 
+def many_blocks_case(ctx: Ctx, stream: str, i: int) -> None:
+    """arity well beyond what the test suite uses: 5..16 blocks (simple blocks keep it cheap)"""
+    from furax._base.blocks import BlockColumnOperator, BlockDiagonalOperator, BlockRowOperator
+    rng = ctx.rng(stream, i)
+    n = rng.randint(5, 16)
+    s = gen.S(rng.choice([2, 3]))
+    blocks = [rng.choice([gen.mk_diagonal, gen.mk_homothety, gen.mk_toeplitz])(rng, s) for _ in range(n)]
+    cont = list(blocks) if rng.random() < 0.6 else {f'k{j:02d}': b for j, b in enumerate(rng.sample(blocks, n))}
+    leaves = block_leaves(cont)
+    mats = [gen.dense(b) for b in leaves]
+    for kind, cls, stack in (('row', BlockRowOperator, np.hstack), ('col', BlockColumnOperator, np.vstack),
+                             ('diag', BlockDiagonalOperator, lambda ms: sl.block_diag(*ms))):
+        st, op = safe(cls, cont)
+        if st != 'ok':
+            ctx.fail(stream, i, f'block-ctor-raises:{kind}:{st}', str(op)[:120], {'n': n})
+            continue
+        want = stack(mats)
+        st, m = safe(gen.dense, op)
+        if st != 'ok' or not gen.close(m, want):
+            ctx.fail(stream, i, f'block-matrix:{kind}', f'{kind} operator of {n} blocks is not the stacked matrix of its blocks '
+                     f'({st})', {'n': n, 'container': type(cont).__name__})
+        st, mt = safe(lambda: gen.dense(op.T))
+        if st != 'ok' or not gen.close(mt, want.T):
+            ctx.fail(stream, i, f'block-T-matrix:{kind}', f'{kind}.T of {n} blocks is not the transposed matrix', {'n': n})
+        ctx.case(f'many:{kind}:{n}:{i}', True, sample={'kind': kind, 'n_blocks': n, 'container': type(cont).__name__})
+    ctx.count(f'many:{n}')
+
+
 def run(ctx: Ctx) -> None:
     q = ctx.tier == 'quick'
+    for i in range(24 if q else 400):
+        if ctx.want('many', i):
+            many_blocks_case(ctx, 'many', i)
     for i in range(160 if q else 3000):
         if ctx.want('block', i):
             one_case(ctx, 'block', i)
